@@ -169,7 +169,21 @@ CLAIMS.update({
           'phases with a 1 us switch interval, whose failures are real but whose passes claim nothing). Known finding: functions that write to / return a captured list.'),
 })
 
+CLAIMS.update({
+ 'C13': dict(engine='FactMachine', technique=TECH_M + '; the facts the real analyses reported travel with the exported statements and are checked against the machine state on every step', text=(
+     'spec/FactMachine.tla conjoins FactStep to every transition of the abstract machine: the type of the value an assignment binds '
+     '(TypeInfer), concrete list lengths and lengths reported equal to a parameter\'s (ArraySizeInfer), the value classes of the '
+     'definition (ValueClassInfer), the constant an expression is reported to be (PartialEval), for every variable a statement reads '
+     'that the statement which last defined it (tracked by the extra variable dsite, loop re-bindings included) is among the definitions '
+     'listed as reaching the read (DefineUse / ReachingDefs, phi nodes expanded), and that any two names of the frame holding the same '
+     'list cell are reported as possibly aliased (Alias regions). Hand + generated programs x argument vectors x caller contexts; the '
+     'run outcome is judged against the real interpreter as in C04.'),
+     note='Main function only, programs without user calls; size facts are judged on runs that complete (sizes are unified from the '
+          'preconditions of later operations such as zip). escape / purity / live_vars / context_use facts are not attached.'),
+})
+
 ENGINES = [
+ ('FactMachine', 'spec/FactMachine.tla', ['C13'], 'abstract machine with analysis facts checked on every step'),
  ('Runtime', 'spec/Runtime.tla', ['C18'], 'process-level runtime model: threads, cache, boundary copies, scoped MPFR settings'),
  ('RuntimeSched', 'spec/RuntimeSched.tla', ['C18'], 'schedule generator (history variable over Runtime behaviours)'),
  ('RuntimeTrace', 'spec/RuntimeTrace.tla', ['C18'], 'trace validation of recorded call histories'),
